@@ -55,3 +55,98 @@ def c12_conform(pid, v, tier):
 
 
 TEMPLATES["C12.conform"] = c12_conform
+
+
+# ---- C01: Kani finds concrete per-file results violating the reduce contract; replayed on the release binary -------------
+import re
+
+
+def run_kani(scratch, harness):
+    hs = open(os.path.join(ROOT, "kani", "harness_generate.rs")).read()
+    with open(scratch + "/repo/src/codegen/generate.rs", "a") as f:
+        f.write(hs)
+    env = dict(os.environ, CARGO_TARGET_DIR=scratch + "/kani-target", CARGO_NET_OFFLINE="true")
+    r = subprocess.run(["cargo", "kani", "--harness", harness, "-Z", "concrete-playback", "--concrete-playback=print"],
+                       cwd=scratch + "/repo", env=env, capture_output=True, text=True, timeout=1500)
+    out = r.stdout + r.stderr
+    failed = "VERIFICATION:- FAILED" in out
+    vals = []
+    m = re.search(r"let concrete_vals: Vec<Vec<u8>> = vec!\[(.*?)\];", out, re.S)
+    if m:
+        vals = [int(x) for x in re.findall(r"//\s*(\d+)", m.group(1))]
+    fc = re.search(r"Failed Checks:(.*?)\n\n", out, re.S)
+    return failed, vals, (fc.group(0).strip() if fc else ""), out[-1500:]
+
+
+def native_c01(binp, workdir, existing_a, existing_b, lock=None):
+    """two-file tree with the given existing IDs (0 = none) and one statement lacking a reference in each file"""
+    def body(eid):
+        s = "fn f() {\n"
+        if eid:
+            s += '    info!("[ref: %d] existing");\n' % eid
+        s += '    info!("new one");\n}\n'
+        return s
+    shutil.rmtree(workdir, ignore_errors=True)
+    project(workdir, {"a.rs": body(existing_a), "b.rs": body(existing_b)}, yaml_extra="use_cache: false\n" if lock is None else "", lock=lock)
+    r = subprocess.run([binp, "--config", workdir + "/Breadlog.yaml"], capture_output=True, text=True)
+    ids = []
+    for n in ("a.rs", "b.rs"):
+        ids += [int(x) for x in re.findall(r"\[ref: (\d+)\]", open(workdir + "/src/" + n).read())]
+    existing = [x for x in (existing_a, existing_b) if x]
+    new = list(ids)
+    for e in existing:
+        if e in new:
+            new.remove(e)
+    problems = []
+    if len(set(ids)) != len(ids):
+        problems.append("duplicate IDs %s" % sorted(ids))
+    for x in new:
+        if not (1 <= x <= 4294967295):
+            problems.append("ID %d outside 1..=4294967295" % x)
+        if existing and x <= max(existing):
+            problems.append("new ID %d not greater than existing maximum %d" % (x, max(existing)))
+    return {"exit": r.returncode, "ids_after": ids, "new_ids": new, "problems": problems}
+
+
+_C01_CACHE = {}
+
+
+def c01_kani(pid, v, tier):
+    fn = v.get("fn") or ""
+    if pid not in ("C01", "C17") or ("generate.rs" not in fn and "generate.rs" not in (v.get("src") or "")):
+        return None
+    if "r" not in _C01_CACHE:
+        _C01_CACHE["r"] = _c01_kani(pid, v, tier)
+    return _C01_CACHE["r"]
+
+
+def _c01_kani(pid, v, tier):
+    scratch = "/var/tmp/verif-replay-%d" % os.getpid()
+    shutil.rmtree(scratch, ignore_errors=True)
+    os.makedirs(scratch)
+    try:
+        binp = build_release(scratch)
+        failed, vals, fc, tail = run_kani(scratch, "verif_reduce_next_id")
+        ce = None
+        nat = None
+        found = False
+        if failed and len(vals) >= 4:
+            ce = {"kani_harness": "verif_reduce_next_id (bounded: two per-file results)", "per_file_results": [[vals[0], vals[1]], [vals[2], vals[3]]], "failed_checks": fc}
+            nat = native_c01(binp, scratch + "/p", vals[0], vals[2])
+            found = bool(nat["problems"])
+        if not found:
+            # boundary family on the real binary (guided by the violated obligation; bounded search, never a claim of absence)
+            for a, b, lock in ((4294967295, 0, None), (4294967294, 0, None), (4294967295, 4294967294, None), (0, 0, 4294967295), (7, 3, 4294967295), (0, 0, None), (5, 9, None)):
+                n2 = native_c01(binp, scratch + "/p", a, b, lock)
+                if n2["problems"]:
+                    nat = dict(n2, tree={"existing_in_a": a, "existing_in_b": b, "lock": lock})
+                    ce = ce or {"boundary_family": True}
+                    found = True
+                    break
+        return {"found": found, "counterexample": ce, "native_replay": nat, "replay_cmd": None, "error": None if (failed or found) else "kani found no counterexample: " + tail[-300:]}
+    finally:
+        shutil.rmtree(scratch, ignore_errors=True)
+
+
+TEMPLATES["C01"] = c01_kani
+TEMPLATES["internal"] = c01_kani
